@@ -628,8 +628,14 @@ func init() {
 		Req:  []string{"in_sync_reached", "confirmed_double_spend"},
 		Rule: "unconfirmed transactions plus blocks confirming conflicting transactions drawn from the tape; non-trivial = at least one block.",
 		Run: func(c *Ctx) {
-			runTxCheck(c, txGenOpts{conflicts: 2, blocks: true, untrusted: true, maxTxs: 7},
-				func(e *txEval) { e.checkCancel(c); e.checkProofs(c) })
+			runTxCheck(c, txGenOpts{conflicts: 2, blocks: true, untrusted: true, maxTxs: 7, dropConn: true},
+				func(e *txEval) {
+					e.checkCancel(c)
+					e.checkProofs(c)
+					if len(e.tr.drops) > 0 {
+						c.Probe("connection_lost_once")
+					}
+				})
 		}})
 	Register(&Check{Prop: "C07", Sub: "safe-trajectory", Weight: 1, Real: txReal, Stub: txStub,
 		Req:  []string{"in_sync_reached", "safe_reported", "safe_expected"},
